@@ -5,7 +5,8 @@ Specification side of C09, foreign field objects: the two things `validate_field
 
 * `rangeField` — numeric parameters fit the Rust types (`i32` sizes, `u8` precision, `i8` scale).  True of every Rust
   value; a hypothesis only because the model's `Field` carries unbounded integers.
-* `entriesField` — the `entries` field of every `Map` carries no strategy a `Struct` field may not carry.
+* `entriesField` — the `entries` field of every `Map`, when it is a struct, carries no strategy a `Struct` field may not
+  carry.
   `validate_map_field` validates the two fields inside the entries struct but not the entries field itself, so a
   FOREIGN map field whose entries field is annotated with, say, `InconsistentTypes` or an unknown strategy name is
   accepted (the JSON form cannot produce one: its children go through `into_field`, which validates them).
@@ -41,8 +42,13 @@ end
 def structStrat (m : Metadata) : Bool :=
   stratClass m = .absent || stratClass m = .known .mapAsStruct || stratClass m = .known .tupleAsStruct
 
+/-- a struct field carries a strategy a struct may carry, or none (nothing is asked of other fields) -/
+def entryStrat : Field → Bool
+  | .mk _ (.struct _) _ m => structStrat m
+  | _ => true
+
 mutual
-/-- the entries field of every map (at any depth) carries a strategy a struct may carry, or none -/
+/-- the entries struct of every map (at any depth) carries a strategy a struct may carry, or none -/
 def entriesField : Field → Bool
   | .mk _ dt _ _ => entriesType dt
 def entriesType : DataType → Bool
@@ -50,7 +56,7 @@ def entriesType : DataType → Bool
   | .list f => entriesField f
   | .largeList f => entriesField f
   | .fixedSizeList f _ => entriesField f
-  | .map e _ => structStrat e.metadata && entriesField e
+  | .map e _ => entryStrat e && entriesField e
   | .union us _ => entriesUFields us
   | _ => true
 def entriesFields : Fields → Bool
